@@ -640,7 +640,10 @@ fn c06_edge(op: &Op, res: &str, pre_s: &Value, post_s: &Value, pre: &Views, post
         Op::Failover { addr } => addr,
         _ => return out,
     };
-    if !res.starts_with("OK") {
+    // the takeover is also applied when no replacement proxy is available (the call then reports
+    // NO_AVAILABLE_RESOURCE after having changed the store): that is a failover, too
+    let took_over = res.starts_with("OK") || (res.starts_with("NO_AVAILABLE_RESOURCE") && pre_s.get("clusters") != post_s.get("clusters"));
+    if !took_over {
         return out;
     }
     let (cname, ci, part) = match pre_mem.get(addr).and_then(|v| v.first()) {
@@ -961,6 +964,19 @@ fn c10_edge(op: &Op, res: &str, pre: &Value, post: &Value) -> Vec<(String, Strin
                     format!("{:?} -> {} during migration (store changed: {})", op, res, without_global(pre) != without_global(post)),
                 ));
             }
+            // a resize request may be answered "nothing to do" only when the cluster already has
+            // exactly the requested number of slot-owning nodes (lingering slot-less chunks do not count)
+            if let Op::AutoChange { n, .. } = op {
+                if !migrating && res == "OK:0" {
+                    let with_slots = pre_ch.iter().filter(|c| c.has_stable[0] || c.has_stable[1]).count() * 4;
+                    if with_slots != *n {
+                        out.push((
+                            "resize-answered-nothing-to-do-but-cluster-not-at-target".into(),
+                            format!("{:?} -> NoOp while {} nodes own slots ({} chunks in the cluster); the service then skips the migration phase and the cluster never reaches {}", op, with_slots, pre_ch.len(), n),
+                        ));
+                    }
+                }
+            }
         }
         _ => {}
     }
@@ -1015,6 +1031,11 @@ fn enabled_ops(cfg: &RunCfg, st: &State) -> Vec<Op> {
             ops.push(Op::RemoveCluster { name: c.clone() });
             ops.push(Op::ChangeConfig { name: c.clone(), k: "compression_strategy".into(), v: "allow_all".into() });
             ops.push(Op::ChangeConfig { name: c.clone(), k: "compression_strategy".into(), v: "bogus".into() });
+            // requests with one valid, changing field and one invalid field, in both roles, so that
+            // whatever order the fields are visited in, one of them has the valid field first:
+            // a refused request must not be half applied
+            ops.push(Op::ChangeConfig { name: c.clone(), k: "compression_strategy;migration_scan_count".into(), v: "set_get_only;0".into() });
+            ops.push(Op::ChangeConfig { name: c.clone(), k: "compression_strategy;migration_scan_count".into(), v: "bogus;777".into() });
         } else {
             for n in &cfg.sizes {
                 ops.push(Op::AutoChange { name: c.clone(), n: *n });
@@ -1626,12 +1647,19 @@ fn configs(cli: &Cli, prop: &str) -> Vec<RunCfg> {
         v.push(mk(&[1; 6], true, 1, 7, Profile::General, vec![4, 8], vec![], true, 400_000));
         v.push(mk(&[1; 6], true, 1, 7, Profile::General, vec![4, 8], mid_out(), true, 400_000));
         v.push(mk(&[1; 4], true, 0, 8, Profile::General, vec![4, 8], vec![], false, 400_000));
+        for lim in [0u64, 1] {
+            v.push(mk(&[2, 2], false, lim, 6, Profile::General, vec![4, 8], mid_out(), true, 400_000));
+            v.push(mk(&[1, 1, 1, 1], false, lim, 6, Profile::General, vec![4, 8], mid_out(), true, 400_000));
+        }
     } else {
         v.push(mk(&[2, 2], false, 1, 4, Profile::General, vec![4, 8], vec![], true, 60_000));
         v.push(mk(&[2, 2, 2], false, 1, 4, Profile::General, vec![4, 8], mid_out(), true, 60_000));
         v.push(mk(&[2, 2, 2], false, 0, 4, Profile::General, vec![4, 8], mid_in(), false, 60_000));
         v.push(mk(&[2, 2, 2], false, 2, 3, Profile::General, vec![4, 8], created(), false, 60_000));
         v.push(mk(&[1; 6], true, 1, 4, Profile::General, vec![4, 8], mid_out(), false, 60_000));
+        // every proxy in use (no spare to replace a failed one) while a migration runs
+        v.push(mk(&[2, 2], false, 1, 3, Profile::General, vec![4, 8], mid_out(), true, 60_000));
+        v.push(mk(&[1, 1, 1, 1], false, 0, 3, Profile::General, vec![4, 8], mid_out(), false, 60_000));
     }
     if prop == "C12" || prop == "C06" {
         v.extend(constructed_family(thorough));
@@ -1681,6 +1709,10 @@ fn constructed_family(thorough: bool) -> Vec<RunCfg> {
         for free in &free_vecs {
             for separate in [false, true] {
                 if separate && (chunks.len() == 1 || !thorough && chunks.len() == 3) {
+                    continue;
+                }
+                // quick tier: three-chunk tables only with no / one free proxy on every host
+                if !thorough && chunks.len() == 3 && !(free.iter().all(|f| *f == 0) || free.iter().all(|f| *f == 1)) {
                     continue;
                 }
                 let mut used = vec![0usize; hosts];
